@@ -28,6 +28,17 @@ CHECKS["C17"] = dict(
     technique="deterministic simulation: seeded fragmentation schedules + injected stream faults (bit flip, truncation/EOF, foreign magic) against a reference parser; bounded-liveness check on EOF",
 )
 
+CHECKS["C19"] = dict(
+    engine="fssim",
+    category="fault_enumeration",
+    text="Histories of write batches (sizes around the scaled file limit, restarts, empty / missing / pre-populated directories incl. >10 files) are sampled by seed; for each history the I/O calls of the "
+    "fault-free run are counted and the history is re-executed with a process crash before EVERY call, after every mutating call and torn at every raw write (all split points for small writes), plus seeded EIO / ENOSPC / close errors / short writes. "
+    "After every acknowledged batch the files must equal the reference record stream exactly (numbering, size bound, record-aligned file ends); after a crash or error they must be a byte prefix of it containing all earlier batches.",
+    design_ref="DESIGN.md §4.3, §5 C19",
+    note="Trusted: /verif/ref/blockfiles.py, SimFS primitives, CPython's real io.BufferedWriter running on the simulated raw file. Process-crash model only (no power-loss / fsync semantics). Histories are sampled; crash points inside a sampled history are enumerated completely up to a per-history cap that is reported.",
+    technique="deterministic simulation: simulated disk with crash-point enumeration (crash-before/after every I/O call, torn writes) and injected I/O errors, checked against a record-stream reference model",
+)
+
 NA = {
     "C02": "ecmath.verify / sig_verify / point / ensure_sig_low_s read no RNG, clock, stream, file or shared state: acceptance is a pure function of (pubkey, message, signature bytes); mutated tuples are input generation, not a fault schedule.",
     "C04": "tx_deser is a pure function of the buffer; 'whatever bytes follow' is a second input, not a fault on a seam the code reads from.",
